@@ -259,7 +259,7 @@ CHECKS = {
              "_calculateVelocities on the coefficients recovered from each real solution, and by the real solvers on arcs generated by the real Kepler propagator (both senses, "
              "e <= 0.7, 2-98 % of a period, extra weight on long-way half-period arcs), re-propagated; the real observation inversion for ground and space sensors; the real "
              "LambertIOD (both solvers) fed from a real in-memory database with two noise-free radar observations 2-39.5 % of a period apart.",
-        note=BASE_TB + "convergence of the universal-variable and Battin iterations is exercised on the real code only (arrival within 1e-3 km + 1e-6 km per second of flight); arcs "
+        note=BASE_TB + "convergence of the universal-variable and Battin iterations is exercised on the real code only (arrival within 1e-3 km + 5e-6 km per second of flight); arcs "
              "are generated and re-propagated with the code's own Kepler solver; transfer angles within 8 deg of 0/180/360 are skipped and counted.",
         technique="Lean 4 proof of arc closure and observation inversion + real solvers on generated arcs + real IOD with a real database",
         ref="5/C20",
